@@ -39,6 +39,10 @@ func ParsePathExpression(selector string) (*PathMatchExpression, error) {
 	pe := &PathMatchExpression{}
 	l := &lex{selector: selector}
 	pe.parsex(l)
+	if l.err == nil && (!l.done() || l.depth != 0) {
+		// stopped at a ")" that closes nothing, or a "(" was never closed
+		l.err = fmt.Errorf("%w. unbalanced parenthesis in %s", fc.BadRequestError, selector)
+	}
 	if l.err != nil {
 		return nil, l.err
 	}
@@ -53,6 +57,9 @@ type lex struct {
 	pos      int
 	selector string
 	err      error
+
+	// groups open where the lexer stands
+	depth int
 }
 
 func (l *lex) next() (s string) {
@@ -83,7 +90,12 @@ func (e *PathMatchExpression) parsex(l *lex) {
 		switch t {
 		case "(":
 			nested := &PathMatchExpression{}
+			l.depth++
 			nested.parsex(l)
+			if len(nested.paths) == 0 && l.err == nil {
+				l.err = fmt.Errorf("%w. empty group in %s", fc.BadRequestError, l.selector)
+				return
+			}
 			if len(s.paths)*len(nested.paths) > maxExpandedPaths {
 				l.err = fmt.Errorf("%w. expression selects more than %d paths", fc.BadRequestError, maxExpandedPaths)
 				return
@@ -99,6 +111,7 @@ func (e *PathMatchExpression) parsex(l *lex) {
 			if split != nil {
 				e.appendPaths(s)
 			}
+			l.depth--
 			return
 		case "/":
 			// ignore natural delimitor already used in lexer
